@@ -71,4 +71,6 @@ def run(tier: str) -> int:
     scs = scenarios(tier)
     results = run_conc(scs)
     report(chk, 'C01', results, scs, describe='history linearizable, no use-after-free/double free/lost wakeup, quiescent structure well formed')
+    from ._conc import matrix_section
+    matrix_section(chk, 'C01')
     return chk.finish()
